@@ -818,6 +818,14 @@ def d_method(ex, o, name, args, kwargs):
         return make_iter(ex, o, name)
     if name == '__contains__':
         return d_has(ex, o, args[0])
+    if name == 'clear' and not args and not kwargs:
+        # dict.clear(): no key is left (the values stay allocated in their pool: other references keep them)
+        pool = ex.wobj(o.mref)
+        idt = zint(o.key)
+        a, kd, d = pool.cols['dom']
+        inner_sort = z3.Select(a, idt).sort()
+        pool.cols['dom'] = (z3.Store(a, idt, z3.K(inner_sort.domain(), z3.BoolVal(False))), kd, d)
+        return None
     raise Unsupported(f'pooled dict method {name}')
 
 
